@@ -1,6 +1,6 @@
 // Hook H4 (ipa-core/src/protocol/dp/mod.rs): ShiftedTruncatedDiscreteLaplace is private.
 
-#[cfg(not(feature = "shuttle"))]
+#[cfg(all(not(feature = "shuttle"), feature = "descriptive-gate"))]
 mod c12 {
     include!(concat!(env!("IPA_VERIF_DIR"), "/c12.rs"));
 }
